@@ -87,7 +87,9 @@ class Program:
     def run(self, fn, rules, **kw):
         g = self.inlined(fn)
         t0 = time.time()
-        eng = Engine(g, rules, name=fn.path, **kw).run()
+        eng = Engine(g, rules, name=fn.path, **kw)
+        eng.program = self
+        eng.run()
         eng.wall = time.time() - t0
         if eng.truncated:
             raise Inconclusive("state budget exhausted while analysing %s" % fn.path)
